@@ -59,7 +59,6 @@ Definition otrace (r : reply trace_out) : obs :=
                  OL (map (fun e => OL [OS (fst e); olist oleaf (snd e)]) (traced t)) ]
   end.
 
-Definition ent_key (e : ent) : string := match e with EPerson => "person" | EGroup => "household" end.
 
 Definition run_op (vs : vtable) (plurals : list string) (sy : sys) (names : list string) (o : op) : obs :=
   match o with
@@ -79,9 +78,10 @@ Definition run_op (vs : vtable) (plurals : list string) (sy : sys) (names : list
   | OVar i =>
       match nth_error (vars sy) i with
       | None => OZ 404
-      | Some x => OL [ oleaf (api_default_value x); OS (formatted_type (v_type x)); OS (unit_upper (v_unit x));
-                       OS (ent_key (v_ent x));
-                       OL (map (fun e => OL [OS (fst e); OB (snd e)]) (api_variable_formulas x)) ]
+      | Some x =>
+          let a := api_variable x in
+          OL [ oleaf (a_default a); OS (a_value_type a); OS (a_definition_period a); OS (a_entity a);
+               OL (map (fun e => OL [OS (fst e); OB (snd e)]) (a_formulas a)) ]
       end
   end.
 
